@@ -104,6 +104,17 @@ def lifted_table(rep, rule, method, shape, extra, modes, tg_call, tier_call, wha
                         if not (num_equal(I, gt["min"], v["min"]) and num_equal(I, gt["max"], v["max"])):
                             diff = "tier %s span (%r, %r) differs from the textgrid's span (%r, %r)" % (name, gt["min"], gt["max"], v["min"], v["max"])
                             break
+                        # validate() compares the spans exactly, as floats: equal real numbers must also be computed the same way
+                        from ..floatorder import FloatOrder, show as show_tree
+
+                        fo = FloatOrder(st)
+                        for which in ("max",):  # the start of the span is an input float in every operation that shares spans; only the end is computed
+                            ta, tb = getattr(gt[which], "tree", None), getattr(v[which], "tree", None)
+                            if ta is not None and tb is not None and ta[0] != "?" and tb[0] != "?" and not (fo.same(ta, tb) or (fo.le(ta, tb) and fo.le(tb, ta))):
+                                diff = "rounding-exposed span: tier %s %s is computed as %s, the textgrid's as %s -- equal in exact arithmetic, not in floating point, so validate() of the result can be False" % (name, which, show_tree(ta), show_tree(tb))
+                                break
+                        if diff:
+                            break
             if diff is None and tg_span is not None:
                 want_span = tg_span(I, sy, mode, m, M)
                 lo, hi = want_span if want_span else (v["min"], v["max"])
